@@ -37,6 +37,9 @@ def cases(draw, tier="quick"):
     P["relay"] = draw(st.booleans())
     if P["relay"] and draw(st.integers(0, 3)) == 0:
         P["no_listen"] = [True, True]          # the relay is the only path, in every generation
+        # ... and maybe only one side is configured with it: the other learns it from the peer's hints, again in
+        # every generation
+        P["relay_sides"] = draw(st.sampled_from([[1, 1], [1, 0], [0, 1]]))
     P["kills"] = draw(st.sampled_from([0, 1, 1, 2, 3, 4]))
     P["cand_kills"] = draw(st.sampled_from([0, 0, 1, 2]))
     P["kill_awaiting_accept"] = P["cand_kills"] > 0 and draw(st.booleans())
@@ -253,6 +256,15 @@ def run_case(P):
                                         getattr(t.peer.owner, "name", "") == "relay":
                                     waiting[nodes.index(t.owner)] += 1
                         ic += ":relay-only:waiting-at-relay=%s" % ("one-side" if sorted(waiting) == [0, 1] else "%d/%d" % tuple(waiting))
+                        if sorted(waiting) == [0, 1]:
+                            # the listed finding is about a side that DID dial the relay in its current generation and
+                            # was paired with a stale connection; a side that never dialled it is something else
+                            idle = waiting.index(0)
+                            mark = getattr(ms[idle], "_verif_dial_mark", None)
+                            if mark is not None:
+                                mine = [d_ for d_ in case.W.net.dialled[mark:] if d_[0] == nodes[idle].name]
+                                if not mine:
+                                    ic += ":other-side-never-dialled"
                         extra_info = "; relay is the only path, open connections towards the relay per side %r" % waiting
                     res.violate("converge", "after %d kills of the selected link and %d candidate kills the sides did "
                                 "not re-converge: Manager states %r, connections %r (settle %r)%s" % (
